@@ -502,7 +502,7 @@ func shouldStopParsing(err error) bool {
 func hasMinimumBytesForKeyValuePair(remainder []byte) bool {
 	// Minimum byte length required: 2 bytes for each string length,
 	// at least 1 byte per string, one byte for =, one byte for ;
-	if len(remainder) < 6 {
+	if len(remainder) < 6 && !holdsCompleteShortPair(remainder) {
 		log.WithFields(logger.Fields{
 			"at":     "(Mapping) Values",
 			"reason": "mapping format violation",
@@ -510,6 +510,21 @@ func hasMinimumBytesForKeyValuePair(remainder []byte) bool {
 		return false
 	}
 	return true
+}
+
+// holdsCompleteShortPair reports whether remainder begins with a complete
+// key=value; pair. A pair with a one-byte key and an empty value (or an empty key)
+// is only 4 or 5 bytes long, shorter than the 6-byte fast-path threshold.
+func holdsCompleteShortPair(remainder []byte) bool {
+	if len(remainder) < 4 {
+		return false
+	}
+	keyLen := int(remainder[0])
+	if 2+keyLen >= len(remainder) {
+		return false
+	}
+	valLen := int(remainder[2+keyLen])
+	return 4+keyLen+valLen <= len(remainder)
 }
 
 // parseKeyFromRemainder extracts a key string from the remainder data.
